@@ -88,6 +88,10 @@ CHECKS = {
             "The flag walk is exhaustive over the finite flag set (95 commands, ~240 flags); the differential covers every flag of the ~100 offline templates that the template itself does not set.",
             "download/upload/shell/png covered by the walk only; a command whose identical runs differ is reported inconclusive here and left to C18. " + BASE_NOTE,
             "DESIGN.md §5 C19"),
+    "C20": ("statistical monitor over seeds: outcome frequencies of the commands executed in-process through cmd.RootCmd (every flag explicit), of their library counterparts, and seed-by-seed agreement with the shipped binary; exact two-sided binomial tail per outcome cell at family-wise level 1e-9 plus a support check",
+            "Refutation only: uniformity held at the measured resolution (listed per configuration in the evidence) on 86 configurations (n, k, with/without replacement, keep/remove, permutations of 3 and 4, all labelled topologies on 4-6 tips unrooted / 3-5 rooted).",
+            "distributions over the seed; biases below the listed resolution are not claimed; false-alarm probability <= 1e-9 per configuration. " + BASE_NOTE,
+            "DESIGN.md §5 C20"),
 }
 
 PENDING = {}
